@@ -183,8 +183,71 @@ def check(run: Run, prog: Program, model: Model, tier: str) -> None:
     elif uses_cols:
         run.holds("SPAN", "rewrite_imports: splice granularity", fn.loc,
                   "splice consults column offsets / source segments", nontrivial=True)
+        _column_slices(run, mod, fn, body, node_loop, slice_assign)
     else:
         run.undecided("SPAN", "rewrite_imports: splice granularity", fn.loc, "splice statement not recognised")
+
+
+def _column_slices(run: Run, mod: Module, fn: FuncInfo, body: ast.FunctionDef, node_loop: ast.For, slice_assign: List[ast.Assign]) -> None:
+    """Column-aware splicing has two further necessary conditions:
+    SPAN-BYTES  - ast column offsets are UTF-8 byte offsets, so they must index the encoded line;
+    SPAN-FRESH  - replacements are applied last-to-first on a shared `lines` list, so the text kept around an
+                  import must be cut from the CURRENT line inside the apply loop, not precomputed while collecting
+                  (two rewritten imports on one physical line would otherwise overwrite each other)."""
+    # names carrying column offsets: direct attribute reads, tuple positions unpacked in a later loop
+    col_names: Set[str] = set()
+    for n in ast.walk(body):
+        if isinstance(n, ast.Assign) and isinstance(n.value, ast.Attribute) and n.value.attr in ("col_offset", "end_col_offset"):
+            col_names |= {t.id for t in n.targets if isinstance(t, ast.Name)}
+    tuple_pos: Dict[int, bool] = {}
+    for n in ast.walk(body):
+        if isinstance(n, ast.Call) and isinstance(n.func, ast.Attribute) and n.func.attr == "append" and n.args and isinstance(n.args[0], ast.Tuple):
+            for i, e in enumerate(n.args[0].elts):
+                if isinstance(e, ast.Attribute) and e.attr in ("col_offset", "end_col_offset"):
+                    tuple_pos[i] = True
+                if isinstance(e, ast.Name) and e.id in col_names:
+                    tuple_pos[i] = True
+    for n in ast.walk(body):
+        if isinstance(n, ast.For) and isinstance(n.target, ast.Tuple):
+            for i, e in enumerate(n.target.elts):
+                if tuple_pos.get(i) and isinstance(e, ast.Name):
+                    col_names.add(e.id)
+    apply_loop = None
+    for n in ast.walk(body):
+        if isinstance(n, ast.For) and any(sa_ in ast.walk(n) for sa_ in slice_assign):
+            apply_loop = n
+    sites = []
+    for n in ast.walk(body):
+        if isinstance(n, ast.Subscript) and isinstance(n.slice, ast.Slice):
+            bounds = [b for b in (n.slice.lower, n.slice.upper) if b is not None]
+            uses_col = any((isinstance(b, ast.Name) and b.id in col_names) or
+                           (isinstance(b, ast.Attribute) and b.attr in ("col_offset", "end_col_offset")) for b in bounds)
+            if uses_col:
+                sites.append(n)
+    if not sites:
+        return
+    for i, n in enumerate(sites):
+        base = n.value
+        c = f"rewrite_imports: column slice #{i + 1}"
+        loc = f"{mod.path}:{n.lineno}"
+        is_bytes = isinstance(base, ast.Call) and isinstance(base.func, ast.Attribute) and base.func.attr == "encode"
+        if is_bytes:
+            run.holds("SPAN-BYTES", c, loc, "column offset applied to the encoded (bytes) line", nontrivial=True)
+        else:
+            run.violated("SPAN-BYTES", c, loc,
+                         f"`{ast.unparse(n)[:60]}` applies a UTF-8 byte offset to a str: wrong cut when a non-ASCII character precedes it",
+                         witness="\"t = 'über'; from district42 import schema\\n\" is spliced one character off")
+        inside = apply_loop is not None and any(n is x for x in ast.walk(apply_loop))
+        in_collect = any(n is x for x in ast.walk(node_loop))
+        if inside:
+            run.holds("SPAN-FRESH", c, loc, "surrounding text is cut from the current line while applying", nontrivial=True)
+        elif in_collect:
+            run.violated("SPAN-FRESH", c, loc,
+                         "the text kept around the import is cut while collecting; replacements are applied last-to-first, so for two "
+                         "imports on one physical line the stale text of the first overwrites the rewritten second",
+                         witness="'from district42 import schema; from valera import validate' keeps the v1 `valera` import")
+        else:
+            run.undecided("SPAN-FRESH", c, loc, "column slice outside both loops")
 
 
 def _rename_emits_as(fn: ast.FunctionDef) -> bool:
@@ -297,4 +360,13 @@ MUTANTS = [
      "edits": [(M, "            if node.level > 0:", "            if node.level != 0:")]},
     {"name": "neutral: loop variable renamed", "expect": "SILENT",
      "edits": [(M, "            for alias in node.names:\n                name = alias.name\n                asname = alias.asname", "            for item in node.names:\n                name = item.name\n                asname = item.asname")]},
+]
+
+MUTANTS += [
+    {"name": "column offsets applied to str instead of bytes", "rule": "SPAN-BYTES",
+     "edits": [(M, "        prefix = lines[start_line].encode()[:col].decode()\n        suffix = lines[end_line].encode()[end_col:].decode()", "        prefix = lines[start_line][:col]\n        suffix = lines[end_line][end_col:]")]},
+    {"name": "prefix/suffix precomputed while collecting", "rule": "SPAN-FRESH",
+     "edits": [(M, "            replacements.append((start_line, end_line, node.col_offset, node.end_col_offset,\n                                 replacement_lines))",
+                "            prefix = lines[start_line].encode()[:node.col_offset].decode()\n            suffix = lines[end_line].encode()[node.end_col_offset:].decode()\n            if prefix.strip() or suffix.strip():\n                replacement_lines = [prefix + \"; \".join(x.rstrip(\"\\n\") for x in replacement_lines) + suffix]\n            replacements.append((start_line, end_line, 0, 0, replacement_lines))"),
+               (M, "        prefix = lines[start_line].encode()[:col].decode()\n        suffix = lines[end_line].encode()[end_col:].decode()\n        if prefix.strip() or suffix.strip():", "        prefix = suffix = \"\"\n        if prefix.strip() or suffix.strip():")]},
 ]
